@@ -191,6 +191,29 @@ func checkMarkup(c *core.Ctx, mc gen.MarkupCase, res *markup.ParseResult) string
 			return fmt.Sprintf("unexpected attribute %s at [%d,+%d]", g.Name, g.Position, g.Length)
 		}
 	}
+	// looking an attribute up by name gives one of the attributes of that name (and nothing for a name no
+	// marker had): the lookup is how a game reaches the ranges
+	seen := map[string]bool{}
+	for _, g := range res.Attributes {
+		if seen[g.Name] {
+			continue
+		}
+		seen[g.Name] = true
+		a, ok := res.Attribute(g.Name)
+		c.Feature("attribute-lookups-by-name")
+		match := false
+		for _, h := range res.Attributes {
+			if h.Name == g.Name && h.Position == a.Position && h.Length == a.Length && h.SourcePosition == a.SourcePosition && a.Name == g.Name {
+				match = true
+			}
+		}
+		if !ok || !match {
+			return fmt.Sprintf("Attribute(%q) = (%+v, %v): not one of the attributes of that name", g.Name, a, ok)
+		}
+	}
+	if a, ok := res.Attribute("no-marker-has-this-name"); ok {
+		return fmt.Sprintf("Attribute(\"no-marker-has-this-name\") found %+v", a)
+	}
 	return ""
 }
 
